@@ -410,6 +410,9 @@ def run(ctx):
                detail={"returns": show(ret)[:120], "path_types": tys},
                fail=f"_process_packet returns the bytes of a type-{tys[0] if tys else '?'} packet without any tag check: an encrypted response whose type nibble is altered "
                     f"(3 -> {tys[0] if tys else '?'}) is not rejected with a ProtocolError at this layer")
+    # what the encoders build is what goes out: write() hands the encoding selected by the packet type to the transport
+    from ._pipeline import write_reaches_wire
+    write_reaches_wire(ctx, "C05.g")
     ctx.require_min("codecs", 2)
     ctx.require_min("residues", 16)
     ctx.require_min("comparisons", 1)
